@@ -107,19 +107,19 @@ Proof.
 Qed.
 
 (** * byte length of the compressed list (crude bounds: 1..5 bytes per key) *)
-Lemma varint_length : forall f x, (1 <= length (varint f x) /\ length (varint f x) <= S f)%nat.
+Lemma varint_len_bounds : forall f x, (1 <= length (varint f x) /\ length (varint f x) <= S f)%nat.
 Proof.
   induction f as [|f IH]; intro x; cbn [varint].
   - cbn [length]. lia.
   - destruct (x / 128 =? 0); cbn [length]; [lia|]. specialize (IH (x / 128)). lia.
 Qed.
 
-Lemma enc_keys_length : forall l last,
+Lemma enc_keys_len_bounds : forall l last,
   (length l <= length (enc_keys last l) /\ length (enc_keys last l) <= 5 * length l)%nat.
 Proof.
   induction l as [|x r IH]; intro lst; cbn [enc_keys length]; [lia|].
   rewrite app_length. specialize (IH x).
-  pose proof (varint_length 4 ((x + two32 - lst) mod two32)). lia.
+  pose proof (varint_len_bounds 4 ((x + two32 - lst) mod two32)). lia.
 Qed.
 
 (** * canonical forms *)
@@ -302,7 +302,7 @@ Proof.
     + apply wf_dn, wfs_dn; [assumption..|]. apply kregs_length.
     + split; [apply wfs_sp; assumption|]. intros _.
       cbn [sp k_cl k_tmp k_p cl_of_keys cl_count].
-      pose proof (enc_keys_length l1 0). set (m := 2 ^ p) in *. lia.
+      pose proof (enc_keys_len_bounds l1 0). set (m := 2 ^ p) in *. lia.
   - set (p := k_p s) in *. clearbody p. subst s. rewrite k_add_dn.
     apply wf_dn, wfs_dn; [assumption..|]. rewrite reg_update_length. exact L.
 Qed.
